@@ -150,9 +150,24 @@ static var body_cont(var args) {
   rem(t, $I(55)); rem(t, $I(0));
   for (int i = 2; i < 7; i++) d = d * 13 + c_int(get(t, $I(i * 55)));
   sort(a);
+  /* every other container operation that moves elements through scratch space, on containers only this thread knows */
+  push_at(a, $I(100 + me), $I(0)); push_at(a, $I(200 + me), $I(3)); pop_at(a, $I(1)); rem(a, $I(200 + me));
+  var l = new_raw(List, Int);
+  for (int i = 0; i < 5; i++) push(l, $I(i * 3 + me));
+  push_at(l, $I(70 + me), $I(2)); pop_at(l, $I(0)); rem(l, $I(6 + me));
+  var tr = new_raw(Tree, Int, Int);
+  for (int i = 0; i < 6; i++) set(tr, $I((i * 5) % 7), $I(i * me));
+  rem(tr, $I(5)); rem(tr, $I(3));
+  var s = new_raw(String, $S("t"));
+  for (int i = 0; i < 3; i++) { append(s, $S("ab")); print_to(s, (int)len(s), "%i.", $I(me + i)); }
+  var a2 = copy(a); swap(a, a2); resize(a2, 2);
   foreach (x in a) d = d * 13 + c_int(x);
+  foreach (x in a2) d = d * 13 + c_int(x);
+  foreach (x in l) d = d * 13 + c_int(x);
+  foreach (k in tr) d = d * 13 + c_int(k) * 3 + c_int(get(tr, k));
+  d = d * 13 + (int64_t)hash(s) % 1000003 + (int64_t)len(s);
   d = d * 13 + (int64_t)len(t);
-  del_raw(t); del_raw(a);
+  del_raw(t); del_raw(a); del(a2); del_raw(l); del_raw(tr); del_raw(s);
   result[me] = d;
   olog((char)('0' + me));
   done_flag[me] = 1;
